@@ -93,6 +93,12 @@ def run(tier, seed):
                 break
             if o.get("out") != "ok":
                 continue
+            if "dump_again" in o or "dump_again" in base:
+                ok = False
+                res.violate("serialising the same loaded program twice gives two different texts: %r then %r"
+                            % ((o.get("dump") or "")[-120:], (o.get("dump_again") or base.get("dump_again") or "")[-120:]),
+                            {"check": "seeds", "text": t, "seeds": [seeds[0], s]})
+                break
             if not same_obs(o["obs"], base["obs"]):
                 ok = False
                 res.violate("the content of the loaded program depends on PYTHONHASHSEED (%s vs %s)" % (seeds[0], s), {"check": "seeds", "text": t, "seeds": [seeds[0], s]})
